@@ -1,14 +1,389 @@
-import Tbx.Model.InertialFlow
-import Tbx.Spec.Bisection
+import Tbx.Proofs.InertialFlowStep
+import Tbx.Proofs.InertialFlowSort
+import Tbx.Props.C02
 /-
-C03 — one inertial-flow bisection step returns a valid, minimum, balanced cut (work in progress).
+C03 — one inertial-flow bisection step returns a valid, minimum, balanced cut.
+
+Property theorems only (helpers: Proofs/BisectionCore, BisectionTheory, InertialFlowTable, InertialFlowSort,
+InertialFlowStep).  Registered in Tbx/Audit/C03.lean.
+
+Spec: `Tbx.Bisection.Valid edges sorted k flow left right` (Spec/Bisection.lean).  Subject: the executable
+model `Tbx.InertialFlow.subStepSorted` / `subStep` of `inertial_flow::sub_step` (Model/InertialFlow.lean).
+The theorems are proved RELATIVE TO the C01/C02 theorems about the Dinic model — which are proved
+(`Tbx.Props.C02.dinic_assignment_canonical`, `Tbx.Flow.dfs_spec`, `Tbx.Flow.bfs_spec`), so nothing is left as a
+hypothesis.  The quantifier of the property is `Bisection.preOK` (distinct ids, n ≥ 2, 1 ≤ k, 2k ≤ n, every
+edge's source in the cell; targets may lie outside) plus `2·|edges| + 6 < usize::MAX`.
 -/
 namespace Tbx.Props.C03
-open Tbx Tbx.InertialFlow
+open Tbx Tbx.Flow Tbx.FlowSpec Tbx.FlowTheory Tbx.InertialFlow Tbx.Bisection Tbx.BisectionCore
+  Tbx.BisectionTheory
 
-/-- **balance_eq**: the balance the step reports is the exact rational min(|L|,|R|)/(|L|+|R|) -/
+/-! ### a non-trivial instance used for non-vacuity
+
+six nodes 0..5 in key order, k = 2: first end {0,1}, last end {4,5}; the contraction merges 0→2 and 1→2
+into capacity 2, the minimum cut is the single edge 2→3, which touches neither contracted end; node 9 is
+outside the cell (edge 2→9), node 7 too (edge 3→7) -/
+def exEdges : List (Nat × Nat) :=
+  [(0,1),(1,0),(0,2),(1,2),(2,1),(2,3),(3,2),(3,4),(4,3),(3,5),(4,5),(5,4),(2,9),(3,7)]
+def exIds : List Nat := [0,1,2,3,4,5]
+def exRes : FlowRes := { flow := 1, left := [0,1,2], right := [3,4,5] }
+
+theorem ex_ok : subStepSorted exEdges exIds 2 1000 = .ok exRes := by decide +kernel
+theorem ex_pre : preOK exEdges exIds 2 = true := by decide
+theorem ex_sz : 2 * exEdges.length + 6 < INV := by decide
+
+/-! ### the step as a whole -/
+
+/-- **step_valid**: whenever the model of `sub_step` returns `Ok`, its result satisfies the whole
+    statement of the property (disjoint, cover, ends, flow = #edges left→right, minimum, left minimal) -/
+theorem step_valid (edges : List (Nat × Nat)) (sorted : List Nat) (k : Nat) (bound : Int)
+    (hpre : preOK edges sorted k = true) (hsz : 2 * edges.length + 6 < INV) (r : FlowRes)
+    (h : subStepSorted edges sorted k bound = .ok r) : Valid edges sorted k r.flow r.left r.right :=
+  subStepSorted_valid edges sorted k bound hpre hsz r h
+
+example : Valid exEdges exIds 2 1 [0,1,2] [3,4,5] := step_valid exEdges exIds 2 1000 ex_pre ex_sz exRes ex_ok
+
+/-- **ends**: the first k ids in key order are in the left set, the last k in the right set -/
+theorem ends (edges : List (Nat × Nat)) (sorted : List Nat) (k : Nat) (bound : Int)
+    (hpre : preOK edges sorted k = true) (hsz : 2 * edges.length + 6 < INV) (r : FlowRes)
+    (h : subStepSorted edges sorted k bound = .ok r) :
+    (∀ x, x ∈ sorted.take k → x ∈ r.left) ∧ (∀ x, x ∈ sorted.drop (sorted.length - k) → x ∈ r.right) :=
+  let v := step_valid edges sorted k bound hpre hsz r h
+  ⟨v.endsL, v.endsR⟩
+
+example : (∀ x, x ∈ exIds.take 2 → x ∈ exRes.left) := (ends exEdges exIds 2 1000 ex_pre ex_sz exRes ex_ok).1
+
+/-- **partition**: left ∩ right = ∅ and left ∪ right = exactly the cell ids that were contracted or are
+    touched by an edge -/
+theorem partition (edges : List (Nat × Nat)) (sorted : List Nat) (k : Nat) (bound : Int)
+    (hpre : preOK edges sorted k = true) (hsz : 2 * edges.length + 6 < INV) (r : FlowRes)
+    (h : subStepSorted edges sorted k bound = .ok r) :
+    (∀ x, x ∈ r.left → x ∉ r.right) ∧
+    (∀ x, (x ∈ r.left ∨ x ∈ r.right) ↔
+      (x ∈ sorted ∧ (x ∈ sorted.take k ∨ x ∈ sorted.drop (sorted.length - k) ∨ touched edges x = true))) :=
+  let v := step_valid edges sorted k bound hpre hsz r h
+  ⟨v.disjoint, v.cover⟩
+
+example : ∀ x, x ∈ exRes.left → x ∉ exRes.right := (partition exEdges exIds 2 1000 ex_pre ex_sz exRes ex_ok).1
+
+/-- **balance_eq**: the balance the step reports is the exact rational min(|L|,|R|) / (|L|+|R|); the
+    f64 the code returns is compared by the judge with the correctly rounded quotient
+    (`Bisection.balanceBits`) -/
 theorem balance_eq (r : FlowRes) :
     balanceNum r = min r.left.length r.right.length ∧ balanceDen r = r.left.length + r.right.length :=
   ⟨rfl, rfl⟩
+
+example : balanceNum exRes = 3 ∧ balanceDen exRes = 6 := by decide
+
+/-- **renumber_inj**: after the renumbering loop the table maps exactly the first end to 0, exactly the last
+    end to 1, every other bound id injectively into [2, current_id); it binds exactly the contracted ids
+    and the end points of edges; and the edge list handed to `Dinic::from_edge_list` is the contracted
+    cell graph of this renumbering (unit capacities, self-loops dropped) -/
+theorem renumber_inj (edges : List (Nat × Nat)) (sorted : List Nat) (k : Nat)
+    (hnd : sorted.Nodup) (hk : 2 * k ≤ sorted.length) :
+    let p := prep edges sorted k
+    (∀ x, p.table.find x = some 0 ↔ x ∈ sorted.take k) ∧
+    (∀ x, p.table.find x = some 1 ↔ x ∈ sorted.drop (sorted.length - k)) ∧
+    (∀ x q, p.table.find x = some q → q < p.curId) ∧
+    (∀ x y q, 2 ≤ q → p.table.find x = some q → p.table.find y = some q → x = y) ∧
+    (∀ y, p.table.containsKey y = true ↔
+      (y ∈ sorted.take k ∨ y ∈ sorted.drop (sorted.length - k) ∨ touched edges y = true)) ∧
+    p.edges.map toE = contractBy p.table.get edges ∧ p.curId ≤ 2 + 2 * edges.length := by
+  intro p
+  have hdisj := take_drop_disjoint sorted k hnd hk
+  obtain ⟨tw, dom, _, hcur⟩ := prep_table edges sorted k hdisj
+  exact ⟨tw.zero, tw.one, tw.lt, tw.inj, dom, prep_edges edges sorted k hdisj, hcur⟩
+
+example : (prep exEdges exIds 2).curId = 6 ∧ (prep exEdges exIds 2).table.get 9 = 4 := by decide +kernel
+
+/-- **flow_counts**: the reported flow equals the number of input edges leading from the left set to the
+    right set — the property's sentence, literally.  Edges to nodes outside the cell never count: an
+    outside node has no outgoing edge, so it lies on the source side of the minimum cut whenever a left
+    node points to it (`BisectionCore.no_cut_to_outside`); hence the flow also equals the number of edges
+    from the left set to cell nodes that are not in the left set -/
+theorem flow_counts (edges : List (Nat × Nat)) (sorted : List Nat) (k : Nat) (bound : Int)
+    (hpre : preOK edges sorted k = true) (hsz : 2 * edges.length + 6 < INV) (r : FlowRes)
+    (h : subStepSorted edges sorted k bound = .ok r) :
+    r.flow = (crossLR edges r.left r.right : Int) ∧
+    r.flow = (crossCell edges sorted (fun x => r.left.contains x) : Int) := by
+  have v := step_valid edges sorted k bound hpre hsz r h
+  refine ⟨v.flowCounts, ?_⟩
+  rw [v.flowCounts]
+  congr 1
+  unfold crossLR crossCell
+  apply List.countP_congr
+  intro e he
+  simp only [Bool.and_eq_true, List.contains_iff_mem, Bool.not_eq_eq_eq_not, Bool.not_true,
+    decide_eq_false_iff_not]
+  constructor
+  · rintro ⟨a, b⟩
+    refine ⟨⟨a, ((v.cover e.2).mp (Or.inr b)).1⟩, ?_⟩
+    cases hc : r.left.contains e.2 with
+    | false => rfl
+    | true => exact absurd b (v.disjoint e.2 (by simpa using hc))
+  · rintro ⟨⟨a, b⟩, c⟩
+    refine ⟨a, ?_⟩
+    have := (v.cover e.2).mpr ⟨b, Or.inr (Or.inr (touched_of_mem he).2)⟩
+    rcases this with h' | h'
+    · have : r.left.contains e.2 = true := by simpa using h'
+      rw [this] at c; cases c
+    · exact h'
+
+example : (1 : Int) = (crossLR exEdges [0,1,2] [3,4,5] : Int) :=
+  (flow_counts exEdges exIds 2 1000 ex_pre ex_sz exRes ex_ok).1
+
+/-- **flow_minimal**: the reported flow is the minimum, over ALL sides `L` of the cell that contain the
+    first end and avoid the last end, of the number of cell edges leaving `L` -/
+theorem flow_minimal (edges : List (Nat × Nat)) (sorted : List Nat) (k : Nat) (bound : Int)
+    (hpre : preOK edges sorted k = true) (hsz : 2 * edges.length + 6 < INV) (r : FlowRes)
+    (h : subStepSorted edges sorted k bound = .ok r) (L : Nat → Bool)
+    (hL0 : ∀ x, x ∈ sorted.take k → L x = true)
+    (hL1 : ∀ x, x ∈ sorted.drop (sorted.length - k) → L x = false) :
+    r.flow ≤ (crossCell edges sorted L : Int) :=
+  (step_valid edges sorted k bound hpre hsz r h).minimal L hL0 hL1
+
+/-- e.g. the side {0,1} alone has three leaving edges -/
+example : (1 : Int) ≤ (crossCell exEdges exIds (fun x => x < 2) : Int) :=
+  flow_minimal exEdges exIds 2 1000 ex_pre ex_sz exRes ex_ok (fun x => x < 2) (by decide) (by decide)
+
+/-- **left_minimal**: every side that attains the minimum contains the reported left set -/
+theorem left_minimal (edges : List (Nat × Nat)) (sorted : List Nat) (k : Nat) (bound : Int)
+    (hpre : preOK edges sorted k = true) (hsz : 2 * edges.length + 6 < INV) (r : FlowRes)
+    (h : subStepSorted edges sorted k bound = .ok r) (L : Nat → Bool)
+    (hL0 : ∀ x, x ∈ sorted.take k → L x = true)
+    (hL1 : ∀ x, x ∈ sorted.drop (sorted.length - k) → L x = false)
+    (heq : (crossCell edges sorted L : Int) = r.flow) : ∀ x, x ∈ r.left → L x = true :=
+  (step_valid edges sorted k bound hpre hsz r h).leftMinimal L hL0 hL1 heq
+
+/-! ### the shared upper bound (sequential semantics) -/
+
+/-- **run_bounded_eq_run**: `run_with_upper_bound(b)` with `b` ≥ the final flow performs exactly the
+    unbounded `run` and publishes the flow (`fetch_min`) -/
+theorem run_bounded_eq_run (es : List Edge) (s t : Nat) (hnn : ∀ e, e ∈ es → 0 ≤ e.cap) (hst : s ≠ t)
+    (hN : nNodes (es.map toE) + 2 < INV) (d : Dinic) (hd : Dinic.fromEdgeList es s t = some d)
+    (fuel : Nat) (d' : Dinic) (h : d.run fuel = some d') (bound : Int) (hle : d'.maxFlow ≤ bound) :
+    runBounded d fuel bound = some (d', min bound d'.maxFlow) :=
+  runBounded_of_run es s t hnn hst hN d hd fuel d' h bound hle
+
+example : ((Dinic.fromEdgeList Props.C02.d1Edges 0 4).bind fun d => (runBounded d 100 10).map (·.2)) = some 10 := by
+  decide +kernel
+
+/-- **run_bounded_cases**: a bounded run either aborts (`finished` stays false — `max_flow()` is `Err` —
+    and the bound is untouched) or is the unbounded run, lowers the bound to the flow, and (for a
+    non-negative bound) its flow does not exceed the bound -/
+theorem run_bounded_cases (d : Dinic) (hf : d.finished = false) (fuel : Nat) (bound : Int) (d' : Dinic)
+    (b' : Int) (h : runBounded d fuel bound = some (d', b')) :
+    (d'.finished = false ∧ b' = bound) ∨
+    (d'.finished = true ∧ d.run fuel = some d' ∧ b' = min bound d'.maxFlow ∧
+      (0 ≤ bound → d'.maxFlow ≤ bound)) :=
+  runBounded_spec d hf fuel bound d' b' h
+
+/-- with bound 2 the run on D1's witness (flow 10) is aborted after the first phase -/
+example : ((Dinic.fromEdgeList Props.C02.d1Edges 0 4).bind fun d => (runBounded d 100 2).map
+    fun r => (r.1.finished, r.2)) = some (false, 2) := by decide +kernel
+
+/-- **ok_flow_le_bound**: `Ok` under a non-negative bound ⇒ the flow does not exceed it -/
+theorem ok_flow_le_bound (edges : List (Nat × Nat)) (ids : List Nat) (coord : Nat → Coord) (axis k : Nat)
+    (b : Int) (hb : 0 ≤ b) (r : FlowRes) (h : subStep edges ids coord axis k b = .ok r) : r.flow ≤ b :=
+  subStepSorted_ok_le edges _ k b hb r h
+
+/-- **ok_bound_irrelevant**: the result does not depend on the bound as long as the bound is at least the
+    flow; the bound afterwards is min(bound, flow) -/
+theorem ok_bound_irrelevant (edges : List (Nat × Nat)) (sorted : List Nat) (k : Nat)
+    (hpre : preOK edges sorted k = true) (hsz : 2 * edges.length + 6 < INV) (b b' : Int) (r : FlowRes)
+    (h : subStepSorted edges sorted k b = .ok r) (hle : r.flow ≤ b') :
+    subStepSorted edges sorted k b' = .ok r ∧ boundAfter edges sorted k b' = min b' r.flow := by
+  have := subStepSortedB_bound_irrelevant edges sorted k hpre hsz b b' r h hle
+  unfold subStepSorted boundAfter
+  rw [this]; exact ⟨rfl, rfl⟩
+
+example : subStepSorted exEdges exIds 2 1 = .ok exRes :=
+  (ok_bound_irrelevant exEdges exIds 2 ex_pre ex_sz 1000 1 exRes ex_ok (by decide)).1
+
+/-- **aborted_flow_gt_bound**: if the step is aborted at bound `b`, then whatever it returns under
+    another bound has a flow above `b` -/
+theorem aborted_flow_gt_bound (edges : List (Nat × Nat)) (sorted : List Nat) (k : Nat)
+    (hpre : preOK edges sorted k = true) (hsz : 2 * edges.length + 6 < INV) (b b' : Int) (r : FlowRes)
+    (ha : subStepSorted edges sorted k b = .aborted) (h : subStepSorted edges sorted k b' = .ok r) :
+    b < r.flow := by
+  by_contra hn
+  have := (ok_bound_irrelevant edges sorted k hpre hsz b' b r h (by omega)).1
+  rw [ha] at this; cases this
+
+example : subStepSorted exEdges exIds 2 0 = .aborted := by decide +kernel
+
+/-! ### the sides as lists (what C05 builds on) -/
+
+/-- **sides_nonempty** -/
+theorem sides_nonempty (edges : List (Nat × Nat)) (ids : List Nat) (coord : Nat → Coord) (axis k : Nat)
+    (b : Int) (r : FlowRes) (h : subStep edges ids coord axis k b = .ok r) : r.left ≠ [] ∧ r.right ≠ [] :=
+  let s := subStepSorted_sides edges _ k b r h
+  ⟨s.1, s.2.1⟩
+
+/-- **sides_nodup_subset**: for distinct ids the two lists together are duplicate free and contain only
+    ids of the cell -/
+theorem sides_nodup_subset (edges : List (Nat × Nat)) (ids : List Nat) (coord : Nat → Coord) (axis k : Nat)
+    (b : Int) (r : FlowRes) (hnd : ids.Nodup) (h : subStep edges ids coord axis k b = .ok r) :
+    (r.left ++ r.right).Nodup ∧ ∀ x, x ∈ r.left ++ r.right → x ∈ ids := by
+  obtain ⟨_, _, sl, sr, hd⟩ := subStepSorted_sides edges _ k b r h
+  have hp := sortIds_perm ids coord axis
+  have hnd' : (sortIds ids coord axis).Nodup := hp.nodup_iff.mpr hnd
+  refine ⟨List.nodup_append.mpr ⟨sl.nodup hnd', sr.nodup hnd', ?_⟩, ?_⟩
+  · intro x hx y hy hxy; subst hxy; exact hd x hx hy
+  · intro x hx
+    rcases List.mem_append.mp hx with h' | h'
+    · exact hp.mem_iff.mp (sl.subset h')
+    · exact hp.mem_iff.mp (sr.subset h')
+
+/-- the quantifier of the property for `subStep`, from facts about the unsorted id list -/
+theorem preOK_sortIds (edges : List (Nat × Nat)) (ids : List Nat) (coord : Nat → Coord) (axis k : Nat)
+    (hnd : ids.Nodup) (hn : 2 ≤ ids.length) (hk1 : 1 ≤ k) (hk2 : 2 * k ≤ ids.length)
+    (hsrc : ∀ e, e ∈ edges → e.1 ∈ ids) : preOK edges (sortIds ids coord axis) k = true := by
+  have hp := sortIds_perm ids coord axis
+  simp only [preOK, Bool.and_eq_true, decide_eq_true_eq, List.all_eq_true, List.contains_iff_mem]
+  rw [hp.length_eq]
+  exact ⟨⟨⟨⟨hp.nodup_iff.mpr hnd, hn⟩, hk1⟩, hk2⟩, fun e he => hp.mem_iff.mpr (hsrc e he)⟩
+
+/-- **sides_cover**: every cell id that is among the first/last k in key order or is an end point of an
+    edge is in one of the two lists (and nothing else is) -/
+theorem sides_cover (edges : List (Nat × Nat)) (ids : List Nat) (coord : Nat → Coord) (axis k : Nat)
+    (b : Int) (r : FlowRes) (hnd : ids.Nodup) (hn : 2 ≤ ids.length) (hk1 : 1 ≤ k)
+    (hk2 : 2 * k ≤ ids.length) (hsrc : ∀ e, e ∈ edges → e.1 ∈ ids) (hsz : 2 * edges.length + 6 < INV)
+    (h : subStep edges ids coord axis k b = .ok r) :
+    ∀ x, x ∈ r.left ++ r.right ↔
+      (x ∈ ids ∧ (x ∈ (sortIds ids coord axis).take k ∨
+        x ∈ (sortIds ids coord axis).drop (ids.length - k) ∨ touched edges x = true)) := by
+  intro x
+  have hp := sortIds_perm ids coord axis
+  have v := step_valid edges _ k b (preOK_sortIds edges ids coord axis k hnd hn hk1 hk2 hsrc) hsz r h
+  rw [List.mem_append, v.cover x, hp.mem_iff]
+  unfold firstK lastK
+  rw [hp.length_eq]
+
+/-- **step_valid for `subStep`** (sort included) -/
+theorem sub_step_valid (edges : List (Nat × Nat)) (ids : List Nat) (coord : Nat → Coord) (axis k : Nat)
+    (b : Int) (r : FlowRes) (hnd : ids.Nodup) (hn : 2 ≤ ids.length) (hk1 : 1 ≤ k)
+    (hk2 : 2 * k ≤ ids.length) (hsrc : ∀ e, e ∈ edges → e.1 ∈ ids) (hsz : 2 * edges.length + 6 < INV)
+    (h : subStep edges ids coord axis k b = .ok r) :
+    Valid edges (sortIds ids coord axis) k r.flow r.left r.right :=
+  step_valid edges _ k b (preOK_sortIds edges ids coord axis k hnd hn hk1 hk2 hsrc) hsz r h
+
+/-- coordinates for the example: node i at (lat, lon) = (10·i, 3·i), ids given in shuffled order -/
+def exCoord : Nat → Coord := fun i => { lat := 10 * i, lon := 3 * i }
+example : subStep exEdges [3,0,5,1,4,2] exCoord 2 2 1000 = .ok exRes := by decide +kernel
+
+/-- **sort_unique**: `sort_unstable_by_key` may return any key-sorted permutation; when the keys of the
+    ids are pairwise distinct there is only one, the list `sortIds` computes — so `subStep` is then THE
+    result the Rust has to produce -/
+theorem sort_unique (ids : List Nat) (coord : Nat → Coord) (axis : Nat) (l : List Nat)
+    (hperm : l.Perm ids) (hsorted : l.Pairwise (fun a b => axisKey axis (coord a) ≤ axisKey axis (coord b)))
+    (hdist : ∀ a b, a ∈ ids → b ∈ ids → axisKey axis (coord a) = axisKey axis (coord b) → a = b) :
+    l = sortIds ids coord axis := by
+  have hp := sortIds_perm ids coord axis
+  exact sorted_perm_unique _ l _ (hperm.trans hp.symm)
+    (fun a b ha hb => hdist a b (hperm.mem_iff.mp ha) (hperm.mem_iff.mp hb)) hsorted
+    (sortIds_sorted ids coord axis)
+
+example : sortIds [3,0,5,1,4,2] exCoord 3 = [0,1,2,3,4,5] := by decide +kernel
+
+/-! ### the judge's checker -/
+
+/-- **checker_sound**: whatever the judge's executable check accepts — on the REAL output of every
+    executed case — satisfies the property's statement -/
+theorem checker_sound (edges : List (Nat × Nat)) (sorted : List Nat) (k : Nat) (flow : ℤ)
+    (left right : List Nat) (res : List E) (tree : List (Nat × Nat))
+    (h : checkerOK edges sorted k flow left right res tree = true) :
+    Valid edges sorted k flow left right :=
+  BisectionTheory.checker_sound edges sorted k flow left right res tree h
+
+/-- a residual graph of a maximum flow of the example's contracted graph, and a reachability tree -/
+def exResidual : List E :=
+  [(0,4,1),(1,5,2),(4,0,2),(4,5,0),(4,11,1),(5,1,1),(5,4,2),(5,9,1),(9,5,0),(11,4,0)]
+def exTree : List (Nat × Nat) := [(0,4),(4,11)]
+example : contract (firstK exIds 2) (lastK exIds 2) exEdges =
+    [(0,4,1),(0,4,1),(4,0,1),(4,5,1),(5,4,1),(5,1,1),(1,5,1),(5,1,1),(4,11,1),(5,9,1)] := by decide +kernel
+example : checkerOK exEdges exIds 2 1 [0,1,2] [3,4,5] exResidual exTree = true := by decide +kernel
+/-- {0,1,2,3} is rejected: not a minimum cut; {0,1} with flow 3 is rejected: not the maximum flow -/
+example : checkerOK exEdges exIds 2 1 [0,1,2,3] [4,5] exResidual exTree = false := by decide +kernel
+example : checkerOK exEdges exIds 2 3 [0,1] [2,3,4,5] exResidual exTree = false := by decide +kernel
+
+/-- **cut_cert_sound**: the certificate part alone (Finset level, same shape as C02's `minCutOK_sound`) -/
+theorem cut_cert_sound (es : List E) (s t : Nat) (res : List E) (x : ℤ) (inA : Nat → Bool)
+    (tree : List (Nat × Nat)) (h : cutCertOK es s t res x inA tree = true) :
+    ∃ (hs : s < nNodes es) (ht : t < nNodes es),
+      IsMaxFlowValue (cF es (nNodes es)) ⟨s, hs⟩ ⟨t, ht⟩ x ∧
+      ⟨s, hs⟩ ∈ setOf (nNodes es) inA ∧ ⟨t, ht⟩ ∉ setOf (nNodes es) inA ∧
+      cutCap (cF es (nNodes es)) (setOf (nNodes es) inA) = x ∧
+      (∀ S' : Finset (Fin (nNodes es)), ⟨s, hs⟩ ∈ S' → ⟨t, ht⟩ ∉ S' →
+        cutCap (cF es (nNodes es)) (setOf (nNodes es) inA) ≤ cutCap (cF es (nNodes es)) S') ∧
+      (∀ S' : Finset (Fin (nNodes es)), ⟨s, hs⟩ ∈ S' → ⟨t, ht⟩ ∉ S' →
+        cutCap (cF es (nNodes es)) S' = x → setOf (nNodes es) inA ⊆ S') :=
+  cutCertOK_sound es s t res x inA tree h
+
+/-- **judge_checker_eq**: the tabulated certificate check the judge executes is the reference one -/
+theorem judge_checker_eq (es : List E) (s t : Nat) (res : List E) (x : ℤ) (inA : Nat → Bool)
+    (tree : List (Nat × Nat)) : cutCertFast es s t res x inA tree = cutCertOK es s t res x inA tree :=
+  cutCertFast_eq es s t res x inA tree
+
+/-- two accepted outputs for the same cell are the same flow and the same left set: what the D-line
+    comparison between code and model relies on -/
+theorem accepted_agree (edges : List (Nat × Nat)) (sorted : List Nat) (k : Nat) (f1 f2 : ℤ)
+    (l1 r1 l2 r2 : List Nat) (v1 : Valid edges sorted k f1 l1 r1) (v2 : Valid edges sorted k f2 l2 r2) :
+    f1 = f2 ∧ (∀ x, x ∈ l1 ↔ x ∈ l2) ∧ (∀ x, x ∈ r1 ↔ x ∈ r2) := by
+  -- the side "member of l" as a Boolean predicate
+  have side : ∀ (f : ℤ) (l r : List Nat) (v : Valid edges sorted k f l r),
+      (∀ x, x ∈ firstK sorted k → (l.contains x) = true) ∧
+      (∀ x, x ∈ lastK sorted k → (l.contains x) = false) ∧
+      (crossCell edges sorted (fun x => l.contains x) : ℤ) = f := by
+    intro f l r v
+    refine ⟨fun x hx => by simpa using v.endsL x hx, ?_, ?_⟩
+    · intro x hx
+      cases hc : l.contains x with
+      | false => rfl
+      | true => exact absurd (v.endsR x hx) (v.disjoint x (by simpa using hc))
+    · rw [v.flowCounts]
+      congr 1
+      unfold crossLR crossCell
+      apply List.countP_congr
+      intro e he
+      simp only [Bool.and_eq_true, List.contains_iff_mem, Bool.not_eq_eq_eq_not, Bool.not_true,
+        decide_eq_false_iff_not]
+      constructor
+      · rintro ⟨⟨a, b⟩, c⟩
+        refine ⟨a, ?_⟩
+        rcases (v.cover e.2).mpr ⟨b, Or.inr (Or.inr (touched_of_mem he).2)⟩ with h' | h'
+        · have : l.contains e.2 = true := by simpa using h'
+          rw [this] at c; cases c
+        · exact h'
+      · rintro ⟨a, b⟩
+        refine ⟨⟨a, ((v.cover e.2).mp (Or.inr b)).1⟩, ?_⟩
+        cases hc : l.contains e.2 with
+        | false => rfl
+        | true => exact absurd b (v.disjoint e.2 (by simpa using hc))
+  obtain ⟨a1, b1, c1⟩ := side f1 l1 r1 v1
+  obtain ⟨a2, b2, c2⟩ := side f2 l2 r2 v2
+  have h12 := v1.minimal _ a2 b2
+  have h21 := v2.minimal _ a1 b1
+  rw [c2] at h12
+  rw [c1] at h21
+  have hf : f1 = f2 := by omega
+  have hl : ∀ x, x ∈ l1 ↔ x ∈ l2 := by
+    intro x
+    constructor
+    · intro hx; simpa using v1.leftMinimal _ a2 b2 (by rw [c2, hf]) x hx
+    · intro hx; simpa using v2.leftMinimal _ a1 b1 (by rw [c1, hf]) x hx
+  refine ⟨hf, hl, ?_⟩
+  intro x
+  have cov1 := v1.cover x
+  have cov2 := v2.cover x
+  constructor
+  · intro hx
+    rcases cov2.mpr (cov1.mp (Or.inr hx)) with h' | h'
+    · exact absurd hx (v1.disjoint x ((hl x).mpr h'))
+    · exact h'
+  · intro hx
+    rcases cov1.mpr (cov2.mp (Or.inr hx)) with h' | h'
+    · exact absurd hx (v2.disjoint x ((hl x).mp h'))
+    · exact h'
 
 end Tbx.Props.C03
